@@ -161,6 +161,18 @@ m("M13b_pop_after_only", ["C13"], [("pdf/src/file.rs", "        let _defer = Def
 m("M13c_object_not_sync", ["C13"], [("pdf/src/object/mod.rs", "pub trait Object: Sized + Sync + Send + 'static {", "pub trait Object: Sized + 'static {")], expect=None,
   note="does not compile (AnySync::new needs Sync+Send): engine failure expected, kept as fail-closed control")
 
+# ------------------------------------------------------------------ C17
+m("M17a_resolve_no_base", ["C17"], [("pdf/src/file.rs", "let mut lexer = Lexer::with_offset(t!(self.backend.read(self.start_offset + pos ..)), self.start_offset + pos);",
+   "let mut lexer = Lexer::with_offset(t!(self.backend.read(pos ..)), pos);")], expect="C17-UNITS")
+m("M17b_prev_no_base", ["C17"], [("pdf/src/backend.rs", "            let pos = t!(start_offset.checked_add(prev_xref_offset).ok_or(PdfError::Invalid));\n            let mut lexer = Lexer::with_offset(t!(self.read(pos..)), pos);",
+   "            let pos = prev_xref_offset;\n            let mut lexer = Lexer::with_offset(t!(self.read(pos..)), pos);")], expect="C17-UNITS", note="needs a prefixed file with an incremental update")
+m("M17c_window16", ["C17"], [("pdf/src/backend.rs", "let buf = t!(self.read(..std::cmp::min(1024, self.len())));", "let buf = t!(self.read(..std::cmp::min(16, self.len())));")], expect="C17-TABLE")
+m("M17d_lexer_offset0", ["C17"], [("pdf/src/file.rs", "let mut lexer = Lexer::with_offset(t!(self.backend.read(self.start_offset + pos ..)), self.start_offset + pos);",
+   "let mut lexer = Lexer::with_offset(t!(self.backend.read(self.start_offset + pos ..)), pos);")], expect="C17-UNITS", note="stream ranges of a prefixed file are shifted by the prefix length")
+m("M17e_decode_rebase", ["C17"], [("pdf/src/file.rs", "        let data = self.backend.read(range)?;\n", "        let data = self.backend.read(self.start_offset + range.start .. self.start_offset + range.end)?;\n")], expect="C17-UNITS", note="absolute stream range rebased twice")
+m("M17f_last_marker", ["C17"], [("pdf/src/backend.rs", "            .position(|window| window == HEADER)", "            .rposition(|window| window == HEADER)")], expect="C17-TABLE")
+m("M17g_version_abs", ["C17"], [("pdf/src/file.rs", "self.backend.read(self.start_offset+1..self.start_offset+8)", "self.backend.read(1..8)")], expect="C17-UNITS", note="version string of a prefixed file read from the junk")
+
 
 def gen_patch(mu):
     files = {}
